@@ -151,6 +151,13 @@ func (e *Engine) loadSpecs(preludeDir string) error {
 			f.pkg = pkg
 		}
 		for _, c := range sf.Contracts {
+			// expand a leading package *name* (pkgname.Type.Method) to the package path
+			if !strings.Contains(c.Key, "/") && strings.Count(c.Key, ".") >= 2 {
+				i := strings.Index(c.Key, ".")
+				if p := e.findPkg(c.Key[:i], pkg); p != nil && p.Name() == c.Key[:i] {
+					c.Key = p.Path() + c.Key[i:]
+				}
+			}
 			if old, dup := e.contracts[c.Key]; dup {
 				return fmt.Errorf("duplicate contract for %s (%s and %s)", c.Key, old.File, c.File)
 			}
